@@ -10,6 +10,7 @@ Two evaluations in Coq, kept apart on purpose:
           the implementation is judged against it first (concrete failing scenario).
   Model - Model/FfiWire.run_wire: the composed code model (and the reference server over the C-ABI handler built from
           the regenerated tables); needs Gen/FfiTables.v."""
+import re
 import vlib
 
 TYPES = {'c': 'Coil', 'd': 'Discrete', 'h': 'Holding', 'i': 'Input'}
@@ -126,8 +127,19 @@ def gen_interleaved(r):
                 v = r.choice([0, 1]) if t in 'cd' else r.choice([0, 1, 65535, r.randrange(65536)])
                 os_.append(f'{kind}{t}{a}' + (f'={v}' if kind in 'au' else ''))
                 used.append(a)
-            groups.append('T:' + ';'.join(os_))
-            groups += reads(used[:2], 0.5)
+            if r.random() < 0.35:
+                # the transaction callback itself sends a client write to the same unit and waits for it
+                a = r.choice(pool + used)
+                if r.random() < 0.5:
+                    pdu = [6] + be(a) + be(r.choice([1, 65535, r.randrange(65536)]))
+                else:
+                    pdu = [5] + be(a) + r.choice([[0xFF, 0], [0, 0]])
+                groups.append('W:' + ';'.join(os_) + '|' + bytes(pdu).hex().upper())
+                used.append(a)
+                groups += reads([a] + used[:1], 0.9)
+            else:
+                groups.append('T:' + ';'.join(os_))
+                groups += reads(used[:2], 0.5)
             touched += used
         else:
             refused = r.random() < 0.45
@@ -170,6 +182,10 @@ CORPUS = [
     'I:ah0=1 T:ah5=9;ai5=3;ac5=1;ad5=1 X:S:0600640001 X:S:0300050001 X:S:0400050001 X:S:0100050001 X:S:0200050001',
     'I:ah0=1;ac0=0 X:S:0600000002 T:uh0=7;ai6=6;dc0 X:S:0500630000 X:S:0300000001 X:S:0400060001 X:S:0100000001 T:gh0;gi6;gc0',
     'I:ah1=0;ah2=0 T:ad2=1 X:S:100001000306000100020003 X:S:0300010002 X:S:0200010002 X:S:0400020001 X:S:0200020001',
+    # a client write sent from INSIDE a transaction callback: served after the whole transaction, both effects stay
+    'I:ah0=1 W:uh0=5|0600000009 X:S:0300000001',
+    'I:ah0=1;ah1=1 W:uh1=5;ai7=3|0601710009 X:S:0301710001 X:S:0300010001 X:S:0400070001 X:S:0201710001',
+    'I:ac2=0 W:ad9=1|050002FF00 X:S:0100020001 X:S:0400020001 X:S:0200090001',
     # unset callbacks: exception 01, nothing changes, transactions stay
     'H:null I:ah0=1 T:ah5=9;ad5=1 X:S:0600000002 X:S:0300000001 X:S:0300050001 X:S:0200050001 X:S:0500050000 X:S:0F0005000101FF X:S:10000000010200FF',
     'I:ah0=5;ah1=6;ac0=1 X:S:0300000002 X:S:0300000003 X:S:06000000FF X:S:0300000001 X:S:0600650001 X:S:0600960001 X:S:060170000A X:S:0301700001 '
@@ -196,6 +212,12 @@ def to_coq(case):
     for g in case.split():
         if g[0] == 'H':
             continue
+        if g[0] == 'W':
+            # a write sent from inside a transaction callback is served after the whole transaction
+            o, hx = g[2:].split('|')
+            items.append('IOps [' + '; '.join(op_to_coq(x) for x in o.split(';') if x) + ']')
+            items.append(f'IFrame 1 {vlib.coq_N_list(bytes.fromhex(hx))}')
+            continue
         if g[0] in 'IT':
             items.append('IOps [' + '; '.join(op_to_coq(o) for o in g[2:].split(';') if o) + ']')
         else:
@@ -209,6 +231,27 @@ SPEC_REQ = ['Base.Show', 'Model.DbTypes', 'Spec.FfiWireSpec']
 SPEC_FN = 'fun c : bool * list item => run_wire_spec (fst c) (snd c)'
 MODEL_REQ = ['Base.Show', 'Model.DbTypes', 'Spec.FfiWireSpec', 'Model.FfiWire']
 FN = 'fun c : bool * list item => run_wire (fst c) true (snd c) ++ "|" ++ run_wire (fst c) false (snd c)'
+
+
+def split_inside(lines):
+    """`... cb=3 inside=1` -> ('... cb=3', 1)"""
+    out, ins = [], []
+    for ln in lines:
+        m = re.fullmatch(r'(.*) inside=(\d+)', ln)
+        out.append(m.group(1) if m else ln)
+        ins.append(int(m.group(2)) if m else 0)
+    return out, ins
+
+
+def expand(case):
+    """groups with a W group shown as the transaction followed by the request"""
+    for g in case.split():
+        if g[0] == 'W':
+            o, hx = g[2:].split('|')
+            yield 'T:' + o
+            yield 'X:S:' + hx
+        else:
+            yield g
 
 
 def spec_eval(ctx, cases):
@@ -226,7 +269,7 @@ def check_system(ctx, flavour, n, tag):
             cases.append(gen_interleaved(ctx.rng) if ctx.rng.random() < share else gen_case(ctx.rng, flavour))
     if not cases:
         return 0, {}, []
-    impl = ctx.harness('ffi_wire', cases, timeout=1200)
+    impl, inside = split_inside(ctx.harness('ffi_wire', cases, timeout=1200))
     # the Spec side must evaluate whatever happened to the generated tables
     rc, out = vlib.coq_make([vlib.vo('Spec.FfiWireSpec')])
     if not ctx.oblige(f'system-spec-compiles({tag})', rc == 0, '' if rc == 0 else str(vlib.parse_coq_error(out) or out[-300:])):
@@ -247,13 +290,15 @@ def check_system(ctx, flavour, n, tag):
     bad = 0
     classes = {'read-values': 0, 'read-exception-02': 0, 'write-echo': 0, 'write-exception': 0, 'exception-01-03': 0, 'silence': 0,
                'read-after-refused-write': 0, 'read-of-read-only-type-after-accepted-write': 0, 'unset-callback': 0, 'transaction-then-refused-write': 0}
-    for c, i, sp, b in zip(cases, impl, spec, both):
+    classes['write-sent-inside-transaction'] = 0
+    for c, i, sp, b, ins in zip(cases, impl, spec, both, inside):
         toks = i.split(';')
         pos = 0
         null = 'H:null' in c.split()
         last_write = None                     # 'ok' / 'refused' : outcome of the latest write request seen
         txn_pending = False
-        for g in c.split():
+        classes['write-sent-inside-transaction'] += sum(1 for g in c.split() if g[0] == 'W')
+        for g in expand(c):
             if g[0] == 'H':
                 continue
             if g[0] in 'IT':
@@ -295,7 +340,7 @@ def check_system(ctx, flavour, n, tag):
             bad += 1
             if bad == 1:
                 def differs(cs):
-                    im = ctx.harness('ffi_wire', cs, timeout=600)
+                    im = split_inside(ctx.harness('ffi_wire', cs, timeout=600))[0]
                     return [x != y for x, y in zip(im, spec_eval(ctx, cs))]
 
                 def cands(case):
@@ -312,7 +357,7 @@ def check_system(ctx, flavour, n, tag):
                                     yield ' '.join(gs[:k] + [g[:2] + ';'.join(rest)] + gs[k + 1:])
                 try:
                     c = vlib.shrink_batch(c, differs, cands)
-                    i = ctx.harness('ffi_wire', [c], timeout=600)[0]
+                    (i,), (ins,) = split_inside(ctx.harness('ffi_wire', [c], timeout=600))
                     sp = spec_eval(ctx, [c])[0]
                     model = None
                     if b is not None:
@@ -323,8 +368,18 @@ def check_system(ctx, flavour, n, tag):
                 pos = next((k for k in range(min(len(ii), len(rr))) if ii[k] != rr[k]), min(len(ii), len(rr)))
                 got = ii[pos] if pos < len(ii) else '(missing)'
                 want = rr[pos] if pos < len(rr) else '(missing)'
-                ctx.violation(f'c-abi-server-wire-reply.{tag}', f'C-ABI TCP server, scenario `{c}`: output #{pos + 1} on the wire is {got}, the reference Modbus server over the C-ABI database and the application\'s callbacks gives {want}',
-                              {'cases': [['wire', c]], 'impl': i, 'spec': sp, 'model': model})
+                note = ''
+                if ins:
+                    note = (' (the write request sent from inside the update_database callback was ANSWERED while the transaction was still running: '
+                            'the handler was not locked during the transaction)')
+                ctx.violation(f'c-abi-server-wire-reply.{tag}', f'C-ABI TCP server, scenario `{c}`: output #{pos + 1} on the wire is {got}, the reference Modbus server over the C-ABI database and the application\'s callbacks gives {want}{note}',
+                              {'cases': [['wire', c]], 'impl': i, 'spec': sp, 'model': model, 'answered_inside_transaction': ins})
+        elif ins:
+            bad += 1
+            if bad <= 2:
+                ctx.violation(f'write-served-inside-transaction.{tag}', f'C-ABI TCP server, scenario `{c}`: {ins} write request(s) sent from inside the rodbus_server_update_database callback were answered '
+                              'while the transaction was still running (a transaction is one critical section of the unit: the request must wait for it)',
+                              {'cases': [['wire', c]], 'impl': i + f' inside={ins}', 'spec': sp + ' inside=0', 'model': model})
         elif b is not None and (i != model or i != ref):
             bad += 1
             if bad <= 3:
